@@ -72,6 +72,8 @@ pub struct Broker {
     pub client_disconnected: bool,
     /// automatic PINGRESP after this many ticks (None: never automatic in scripted mode)
     pub ping_delay: Option<u64>,
+    pub ping_delays: Vec<Option<u64>>,
+    pub pings_seen: usize,
     /// number of Deliver steps skipped because they would violate conformance
     pub skipped: u32,
 }
@@ -97,6 +99,8 @@ impl Broker {
             inbound: Vec::new(),
             client_disconnected: false,
             ping_delay: None,
+            ping_delays: Vec::new(),
+            pings_seen: 0,
             skipped: 0,
         }
     }
@@ -116,8 +120,8 @@ impl Broker {
     pub fn queue(&mut self, tr: &mut Transport, packet: Option<Packet>, bytes: Vec<u8>, at: Option<u64>) {
         let off = tr.inbound.len();
         let idx = self.inbound.len();
-        self.inbound.push(InPkt { tr: tr.id, off, len: bytes.len(), packet, bytes: bytes.clone() });
-        tr.push_inbound_at(at.unwrap_or_else(clock::now), &bytes);
+        let eff = tr.push_inbound_at(at.unwrap_or_else(clock::now), &bytes);
+        self.inbound.push(InPkt { tr: tr.id, off, len: bytes.len(), packet, bytes: bytes.clone(), at: eff });
         tr.release_due();
         self.log.borrow_mut().push(Event::Queued { tr: tr.id, idx });
     }
@@ -210,7 +214,14 @@ impl Broker {
                     .retain(|b| !(b.pid == a.pid && matches!(b.state, BState::AwaitComp | BState::NeedRel)));
             }
             Packet::PingReq => {
-                if let Some(d) = self.ping_delay {
+                if !self.ping_delays.is_empty() {
+                    let d = self.ping_delays[self.pings_seen % self.ping_delays.len()];
+                    self.pings_seen += 1;
+                    if let Some(d) = d {
+                        let bytes = rc::encode(&Packet::PingResp);
+                        self.queue(tr, Some(Packet::PingResp), bytes, Some(clock::now() + d));
+                    }
+                } else if let Some(d) = self.ping_delay {
                     let bytes = rc::encode(&Packet::PingResp);
                     self.queue(tr, Some(Packet::PingResp), bytes, Some(clock::now() + d));
                 } else if auto {
@@ -463,6 +474,27 @@ impl Broker {
                 true
             }
         }
+    }
+
+    pub fn deliver_at(&mut self, tr: &mut Transport, at: u64, qos: u8, payload: &PayloadSpec) {
+        if !self.connack_sent {
+            return;
+        }
+        let mut qos = qos;
+        if qos > 0 && self.b_inflight.len() >= self.client_rm as usize {
+            qos = 0;
+        }
+        let pid = if qos > 0 { Some(self.alloc_bpid()) } else { None };
+        let pb = rc::Publish { dup: false, qos, retain: false, topic: "in/t".into(), pid, props: vec![], payload: payload.bytes() };
+        let bytes = rc::encode(&Packet::Publish(pb.clone()));
+        if bytes.len() as u64 > self.client_max_packet as u64 {
+            return;
+        }
+        if let Some(pid) = pid {
+            let state = if qos == 1 { BState::AwaitAck } else { BState::AwaitRec };
+            self.b_inflight.push(BIn { pid, state, publish: pb.clone() });
+        }
+        self.queue(tr, Some(Packet::Publish(pb)), bytes, Some(at));
     }
 
     fn alloc_bpid(&mut self) -> u16 {
@@ -827,6 +859,8 @@ pub fn run_case(case: &Case) -> Trace {
 pub fn run_case_with(case: &Case, tweak: impl FnOnce(&mut World)) -> Trace {
     clock::reset();
     let mut w = World::new(case.broker);
+    w.jitter = case.cfg.jitter_us;
+    w.broker.ping_delays = case.cfg.ping_delays_us.clone();
     tweak(&mut w);
     let r = std::panic::catch_unwind(std::panic::AssertUnwindSafe(|| interpret(case, &mut w)));
     if let Err(p) = r {
@@ -1063,6 +1097,27 @@ fn do_step(w: &mut World, tr: &Tr, conn: &mut Connection<'_, '_, SimIo>, at: (us
             t.faults.push(Fault { at_call, eof: *eof });
         }
         Step::Eof => tr.borrow_mut().eof = true,
+        Step::PollFor { ms } => {
+            let end = clock::now() + *ms as u64 * clock::TICKS_PER_MS;
+            let mut guard = 0u32;
+            loop {
+                guard += 1;
+                if guard > 200_000 {
+                    w.trace.watchdog = true;
+                    break;
+                }
+                let r = poll_once(w, tr, conn, at, OpKind::Poll, None, TimePolicy::Flow { jitter: w.jitter, horizon: end });
+                match r {
+                    OpRes::Ok | OpRes::Message(_) | OpRes::Err(ErrKind::Rejected(_)) => {}
+                    _ => break,
+                }
+            }
+        }
+        Step::DeliverAt { delay_ms, qos, payload } => {
+            w.broker.pump(&mut tr.borrow_mut());
+            let at = clock::now() + *delay_ms as u64 * clock::TICKS_PER_MS;
+            w.broker.deliver_at(&mut tr.borrow_mut(), at, *qos, payload);
+        }
         Step::Burn { n } => {
             let mut done = 0u32;
             for _ in 0..*n {
